@@ -1425,8 +1425,12 @@ Proof.
   unfold holders. rewrite Hc, holders_of_snoc. apply hold_step_false.
 Qed.
 
+(* NOTE ([_machine] lemmas): facts about the trusted, queue-less mutex machine of Model.v. Go's sync.RWMutex
+   also refuses new readers while a writer WAITS, and sync.Mutex.TryLock may fail on a free mutex with
+   queued waiters; the property ("free and uncontended") therefore needs the hypothesis [uncontended],
+   which SyncMap/Uncontended.v adds. Only those versions are property theorems. *)
 (* TryLockKey(k) succeeds, and then holds k, when nobody holds a key with k's mutex *)
-Theorem trylock_succeeds_when_free progs sched t ch c' f i :
+Theorem trylock_succeeds_when_free_machine progs sched t ch c' f i :
   io_progs progs -> disc_from (init_config 1 progs) sched ->
   let c := run_schedule (init_config 1 progs) sched in
   top_frame c t = Some f -> (f_pc f = KM_TryLock \/ f_pc f = KRW_TryLock) -> c_insts c = [i] ->
@@ -1544,7 +1548,7 @@ Proof.
 Qed.
 
 (* TryRLockKey(k) succeeds, and then holds k shared, when nobody holds exclusively a key with k's mutex *)
-Theorem tryrlock_succeeds_when_no_writer progs sched t ch c' f i :
+Theorem tryrlock_succeeds_when_no_writer_machine progs sched t ch c' f i :
   io_progs progs -> disc_from (init_config 1 progs) sched ->
   let c := run_schedule (init_config 1 progs) sched in
   top_frame c t = Some f -> f_pc f = KRW_TryRLock -> c_insts c = [i] ->
@@ -1606,7 +1610,7 @@ Proof.
 Qed.
 
 (* TryLockKey(k) succeeds when nobody holds k *)
-Theorem trylock_succeeds_when_key_free progs sched t ch c' f :
+Theorem trylock_succeeds_when_key_free_machine progs sched t ch c' f :
   io_progs progs -> fresh_values progs -> disc_from (init_config 1 progs) sched ->
   let c := run_schedule (init_config 1 progs) sched in
   top_frame c t = Some f -> (f_pc f = KM_TryLock \/ f_pc f = KRW_TryLock) ->
@@ -1616,7 +1620,7 @@ Theorem trylock_succeeds_when_key_free progs sched t ch c' f :
 Proof.
   intros Hp Hfr Hd c Tt Hpc Hfree Hstep.
   destruct (MInv_reachable progs sched Hp Hd) as (i & Hi & Hk & _). fold c in Hi, Hk.
-  eapply (trylock_succeeds_when_free progs sched t ch c' f i); eauto.
+  eapply (trylock_succeeds_when_free_machine progs sched t ch c' f i); eauto.
   intros [[t2 k2] b2] Hh E. cbn in E.
   rewrite Forall_forall in Hk. destruct (Hk _ (proj1 (elem_of_list_In _ _) Hh)) as [m Hm]. cbn in Hm.
   assert (k2 = key_of (f_call f)) by (eapply (kmut_injective progs sched i); eauto; congruence).
@@ -1624,7 +1628,7 @@ Proof.
 Qed.
 
 (* TryRLockKey(k) succeeds when nobody holds k exclusively *)
-Theorem tryrlock_succeeds_when_key_not_write_held progs sched t ch c' f :
+Theorem tryrlock_succeeds_when_key_not_write_held_machine progs sched t ch c' f :
   io_progs progs -> fresh_values progs -> disc_from (init_config 1 progs) sched ->
   let c := run_schedule (init_config 1 progs) sched in
   top_frame c t = Some f -> f_pc f = KRW_TryRLock ->
@@ -1634,7 +1638,7 @@ Theorem tryrlock_succeeds_when_key_not_write_held progs sched t ch c' f :
 Proof.
   intros Hp Hfr Hd c Tt Hpc Hfree Hstep.
   destruct (MInv_reachable progs sched Hp Hd) as (i & Hi & Hk & _). fold c in Hi, Hk.
-  eapply (tryrlock_succeeds_when_no_writer progs sched t ch c' f i); eauto.
+  eapply (tryrlock_succeeds_when_no_writer_machine progs sched t ch c' f i); eauto.
   intros [[t2 k2] b2] Hh Hb E. cbn in E, Hb. subst b2.
   rewrite Forall_forall in Hk. destruct (Hk _ (proj1 (elem_of_list_In _ _) Hh)) as [m Hm]. cbn in Hm.
   assert (k2 = key_of (f_call f)) by (eapply (kmut_injective progs sched i); eauto; congruence).
@@ -1733,7 +1737,7 @@ Proof.
 Qed.
 
 (* LockKey(k) is enabled, completes and then holds k, when nobody holds k - whatever other keys are held or awaited *)
-Theorem lock_succeeds_when_key_free progs sched t ch f :
+Theorem lock_succeeds_when_key_free_machine progs sched t ch f :
   io_progs progs -> fresh_values progs -> disc_from (init_config 1 progs) sched ->
   let c := run_schedule (init_config 1 progs) sched in
   top_frame c t = Some f -> (f_pc f = KM_Lock \/ f_pc f = KRW_Lock) ->
@@ -1792,7 +1796,7 @@ Qed.
 
 (* RLockKey(k) is enabled, completes and then holds k shared, when nobody holds k exclusively - readers
    do not exclude each other, and other keys do not matter *)
-Theorem rlock_succeeds_when_key_not_write_held progs sched t ch f :
+Theorem rlock_succeeds_when_key_not_write_held_machine progs sched t ch f :
   io_progs progs -> fresh_values progs -> disc_from (init_config 1 progs) sched ->
   let c := run_schedule (init_config 1 progs) sched in
   top_frame c t = Some f -> f_pc f = KRW_RLock ->
@@ -2024,3 +2028,17 @@ Proof. intros Hp Hb. apply keyed_mutual_exclusion; [exact Hp|apply balanced_disc
 
 Lemma ex_progs_balanced : balanced ex_progs.
 Proof. repeat constructor. Qed.
+
+(* the mutex of a key is always the value some LoadOrStore call of the programs supplied for that key
+   (never a default such as the 0 of tryLoadOrStore's unreachable expunged branch) *)
+Theorem observed_value_is_supplied progs sched k m : io_progs progs ->
+  observed (run_schedule (init_config 1 progs) sched) k m ->
+  exists j p, In (CLoadOrStore j k m p) (concat progs).
+Proof.
+  intros Hp Ho. apply observed_key_value in Ho; [|apply IOInv_reachable, Hp]. destruct Ho as (i & Hi & e & Hr & He).
+  set (G := fun (k m : Z) => exists j p, In (CLoadOrStore j k m p) (concat progs)).
+  assert (HG : Forall (Forall (callG G)) progs).
+  { apply Forall_forall. intros prog Hprog. apply Forall_forall. intros c Hc.
+    destruct c as [| |j k0 v p| | |]; cbn; try exact I. exists j, p. apply in_concat. eauto. }
+  destruct (src_reachable G progs sched i Hp HG Hi _ _ Hr) as (m' & He' & HGm). assert (m' = m) by congruence. subst. exact HGm.
+Qed.
